@@ -319,9 +319,32 @@ package gtab
 //@ assume func (info ScriptListInfo) encode() (res []byte)
 //@   ensures isnil(res) || fresh(res)
 //@   modifies nothing
-//@ assume func (info FeatureListInfo) encode() (res []byte)
+// FeatureListInfo.encode: checked as an encoder (every 16-bit offset and count
+// stored must fit); tags have four bytes (as the reader delivers them).
+//@ func (info FeatureListInfo) encode() (res []byte)   props: C08
+//@   encoder
+//@   may_panic
+//@   requires forall i int :: 0 <= i && i < len(info) ==> info[i] != nil && len(info[i].Tag) == 4
 //@   ensures isnil(res) || fresh(res)
+//@   opt assume_make=1
+//@   opt lossless_skip=uint16(totalSize)
 //@   modifies nothing
+//@   loop 0
+//@     invariant fresh(offs) && len(offs) == len(info) && totalSize >= 2 + 6*len(info) && (iter > 0 ==> largestOffset >= 2 + 6*len(info)) && largestOffset <= totalSize && totalSize <= 2 + 6*len(info) + 131074*iter
+//@     invariant forall k int :: 0 <= k && k < iter ==> len(info[k].Lookups) <= 65535
+//@     invariant forall k int :: 0 <= k && k < iter ==> offs[k] <= largestOffset && (largestOffset <= 65535 ==> offs[k] >= 2 + 6*len(info) && offs[k] + 4 + 2*len(info[k].Lookups) <= totalSize)
+//@   loop 1
+//@     invariant forall k int :: 0 <= k && k < len(info) ==> len(info[k].Lookups) <= 65535
+//@     invariant fresh(buf) && len(buf) == totalSize && fresh(offs) && len(offs) == len(info) && totalSize >= 2 + 6*len(info) && largestOffset <= 65535
+//@     invariant forall k int :: 0 <= k && k < len(info) ==> offs[k] >= 2 + 6*len(info) && offs[k] + 4 + 2*len(info[k].Lookups) <= totalSize
+//@   loop 2
+//@     invariant forall k int :: 0 <= k && k < len(info) ==> len(info[k].Lookups) <= 65535
+//@     invariant fresh(buf) && len(buf) == totalSize && fresh(offs) && len(offs) == len(info) && largestOffset <= 65535
+//@     invariant forall k int :: 0 <= k && k < len(info) ==> offs[k] >= 2 + 6*len(info) && offs[k] + 4 + 2*len(info[k].Lookups) <= totalSize
+//@   loop 3
+//@     invariant forall k int :: 0 <= k && k < len(info) ==> len(info[k].Lookups) <= 65535
+//@     invariant fresh(buf) && len(buf) == totalSize && fresh(offs) && len(offs) == len(info) && largestOffset <= 65535 && p == offs[outerindex] && 0 <= outerindex && outerindex < len(info) && f == info[outerindex] && f != nil
+//@     invariant forall k int :: 0 <= k && k < len(info) ==> offs[k] >= 2 + 6*len(info) && offs[k] + 4 + 2*len(info[k].Lookups) <= totalSize
 //@ func (info *Info) Encode() (res []byte)   props: C08
 //@   encoder
 //@   requires info != nil
